@@ -73,6 +73,8 @@ type valset struct {
 
 var (
 	singleVals, multiVals *valset
+	// committee of the 4-validator chains (6 members, majority multisig); the single chain's committee is its validator
+	multiCommittee *valset
 )
 
 func init() {
@@ -84,7 +86,7 @@ func init() {
 		}
 		all = append(all, p)
 	}
-	mk := func(privs []*keys.PrivateKey, standby []*keys.PrivateKey) *valset {
+	mk := func(privs []*keys.PrivateKey, standby []*keys.PrivateKey, majority bool) *valset {
 		v := &valset{nvals: len(privs)}
 		v.privs = append(v.privs, privs...)
 		sort.Slice(v.privs, func(i, j int) bool { return v.privs[i].PublicKey().Cmp(v.privs[j].PublicKey()) < 0 })
@@ -92,6 +94,9 @@ func init() {
 			v.pubs = append(v.pubs, p.PublicKey())
 		}
 		v.m = smartcontract.GetDefaultHonestNodeCount(len(privs))
+		if majority {
+			v.m = smartcontract.GetMajorityHonestNodeCount(len(privs))
+		}
 		s, err := smartcontract.CreateMultiSigRedeemScript(v.m, v.pubs.Copy())
 		if err != nil {
 			panic(err)
@@ -103,9 +108,17 @@ func init() {
 		}
 		return v
 	}
-	singleVals = mk([]*keys.PrivateKey{all[2]}, []*keys.PrivateKey{all[2]})
+	singleVals = mk([]*keys.PrivateKey{all[2]}, []*keys.PrivateKey{all[2]}, false)
+	multiCommittee = mk(all, nil, true)
 	// Validators must come first in the standby committee list.
-	multiVals = mk(all[:4], []*keys.PrivateKey{all[2], all[0], all[3], all[1], all[4], all[5]})
+	multiVals = mk(all[:4], []*keys.PrivateKey{all[2], all[0], all[3], all[1], all[4], all[5]}, false)
+}
+
+func (k kind) committee() *valset {
+	if k.multi {
+		return multiCommittee
+	}
+	return singleVals
 }
 
 func (k kind) vals() *valset {
@@ -181,14 +194,22 @@ var (
 	accD = mkAcct("D")
 	accP = mkAcct("poor")
 	accX = mkAcct("outsider") // never funded, not a validator
+	accS = mkAcct("stale")    // sender of the transaction that is pooled and then loses its validity
 )
 
 // ---- transactions ----------------------------------------------------------------
 
 const (
 	sysFeeTransfer = 20000000 // 0.2 GAS, generous for a GAS transfer
-	feePerByte     = 1000
+	baseFeePerByte = 1000
 	baseExecFee    = 30 * 10000 // DefaultBaseExecFee * vm.ExecFeeFactorMultiplier (picoGAS)
+)
+
+// Policy values in force at the tip of the state being worked on (set by useState): transactions built
+// for that state pay accordingly.
+var (
+	curFeePerByte   int64 = baseFeePerByte
+	curConflictsFee int64 // fee per Conflicts attribute and signer
 )
 
 func transferScript(from, to util.Uint160, amount int64) []byte {
@@ -227,7 +248,7 @@ func mkTx(from *acct, to util.Uint160, amount int64, o txOpt) *transaction.Trans
 	nf, sz := fee.Calculate(baseExecFee, vs)
 	size := io.GetVarSize(tx) + sz
 	// Conflicts attribute fee is 0 by default policy; attribute fees are not used by these txs.
-	tx.NetworkFee = nf + int64(size)*feePerByte + o.extraNet
+	tx.NetworkFee = nf + int64(size)*curFeePerByte + int64(len(o.conflicts))*curConflictsFee + o.extraNet
 	if err := from.acc.SignTx(magic, tx); err != nil {
 		panic(err)
 	}
@@ -242,8 +263,26 @@ func mkValTx(v *valset, to util.Uint160, amount int64, nonce, vub uint32) *trans
 	tx.Signers = []transaction.Signer{{Account: v.addr, Scopes: transaction.CalledByEntry}}
 	nf, sz := fee.Calculate(baseExecFee, v.script)
 	size := io.GetVarSize(tx) + sz
-	tx.NetworkFee = nf + int64(size)*feePerByte
+	tx.NetworkFee = nf + int64(size)*curFeePerByte
 	tx.Scripts = []transaction.Witness{{InvocationScript: v.sign(tx, nil), VerificationScript: v.script}}
+	return tx
+}
+
+// mkCommitteeTx builds a transaction that calls a native method with the committee's witness.
+func mkCommitteeTx(cv *valset, contract util.Uint160, method string, nonce, vub uint32, args ...any) *transaction.Transaction {
+	w := io.NewBufBinWriter()
+	emit.AppCall(w.BinWriter, contract, method, callflag.All, args...)
+	if w.Err != nil {
+		panic(w.Err)
+	}
+	tx := transaction.New(w.Bytes(), 50000000)
+	tx.Nonce = nonce
+	tx.ValidUntilBlock = vub
+	tx.Signers = []transaction.Signer{{Account: cv.addr, Scopes: transaction.CalledByEntry}}
+	nf, sz := fee.Calculate(baseExecFee, cv.script)
+	size := io.GetVarSize(tx) + sz
+	tx.NetworkFee = nf + int64(size)*curFeePerByte
+	tx.Scripts = []transaction.Witness{{InvocationScript: cv.sign(tx, nil), VerificationScript: cv.script}}
 	return tx
 }
 
